@@ -110,15 +110,19 @@ Theorem C11_resume_alias_now_in_step :
 Proof. exact resume_alias_now_in_step. Qed.
 Print Assumptions C11_resume_alias_now_in_step.
 
-(* Outside the guard of the first theorem, 1 - see known-findings.txt rehook-mixed-chain *)
-(* 1: a tail-call chain mixing a PLT entry and an mcount entry is re-hooked with the wrong trampoline. *)
-Theorem C11_rehook_mixed_chain_refuted :
-  (exists s obs, lrun init (firstn 5 witness_mixed_chain) = Some (s, obs)) /\
-  lrun init witness_mixed_chain = None.
-Proof. exact rehook_mixed_chain_refuted. Qed.
-Print Assumptions C11_rehook_mixed_chain_refuted.
+(* regression witness of /repo fix C01-9 (mcount_rstack_rehook oldest-first): a tail-call chain mixing a PLT
+   entry and an mcount entry, re-hooked after a catch, returns through both exit hooks - tail-call chains
+   of mixed kinds are legal moves of the theorems above *)
+Theorem C11_mixed_chain_now_in_step :
+  legal_prog witness_mixed_chain = true /\
+  exists s obs, lrun init witness_mixed_chain = Some (s, obs) /\
+    map (fun o => (o_target o, o_pops o)) obs = [(0,0); (0,0); (0,0); (0,0); (0,0); (12, 2); (11, 1)] /\
+    ok_run witness_mixed_chain obs = true.
+Proof. exact mixed_chain_now_in_step. Qed.
+Print Assumptions C11_mixed_chain_now_in_step.
 
-(* 2: with an -mfentry style frame address a destructor called from a cleanup pad is recorded as a child
+(* Outside the guard of the first theorem: *)
+(* with an -mfentry style frame address a destructor called from a cleanup pad is recorded as a child
    of the frame that was just unwound (two exit hooks, depth 3 instead of 2); control is unaffected. *)
 Theorem C11_fentry_cleanup_refuted :
   exists s obs, lrun init witness_fentry_cleanup = Some (s, obs) /\
